@@ -90,7 +90,7 @@ Stored(s) == DOMAIN s
 
 NoRec == [op |-> "-", pp |-> FALSE, st |-> "-", only |-> FALSE, src |-> "-", method |-> "-",
           process |-> FALSE, keepMean |-> FALSE, meanArg |-> "-", status |-> "ok",
-          name |-> "-", save |-> FALSE, res |-> Absent, aux |-> Absent, names |-> {}]
+          name |-> "-", save |-> FALSE, toks |-> <<>>, res |-> Absent, aux |-> Absent, names |-> {}]
 NoChk == [srcE |-> Absent, data |-> Absent]
 
 Calls == Len(SelectSeq(hist, LAMBDA r : r.op \in {"call", "getmean", "vario"}))
@@ -202,6 +202,8 @@ Transform(m, src, st, process, keepMean) ==
          rec      == [NoRec EXCEPT !.op = "transform", !.src = src, !.st = st, !.method = m[1] \o ":" \o m[2],
                                    !.process = process, !.keepMean = keepMean, !.meanArg = a,
                                    !.status = status, !.name = NameOf(st, src), !.save = Saves(st),
+                                   \* the documented steps, uncancelled (what is done to the stored array)
+                                   !.toks = IF status = "ok" THEN toks ELSE <<>>,
                                    !.res = IF status = "ok" THEN e ELSE Absent]
          data     == IF status = "ok" /\ process THEN ApplyE(srcE, PreOps(cfg, keepMean))
                      ELSE IF status = "ok" THEN srcE ELSE Absent
